@@ -174,6 +174,12 @@ class WebSession(object):
                     request.fields.pop(name, None)
 
                 request.url = url
+
+                if request.url_info.hostname_with_port != \
+                        self._original_request.url_info.hostname_with_port:
+                    # The login was given for the original host only
+                    request.username = None
+                    request.password = None
             else:
                 request = self._request_factory(url)
 
